@@ -89,6 +89,20 @@ Theorem C11_times_valid_exact :
 Proof. exact timing_ok_spec. Qed.
 Print Assumptions C11_times_valid_exact.
 
+(* read with ordinary integers: for a clock in [0, 2^63) the age condition is
+   now - iat <= ma, with NO wrap-around however old the token claims to be *)
+Theorem C11_times_valid_plain :
+  forall (now ma : Z) (c : claims),
+    0 <= now < 2 ^ 63 -> ma < 2 ^ 63 ->
+    (times_valid now ma c <->
+     (j_exp c = JAbsent \/ exists z, j_exp c = JNum z /\ now < f2i z) /\
+     (j_iat c = JAbsent \/ exists z, j_iat c = JNum z /\ (ma <= 0 \/ now - f2i z <= ma))).
+Proof. exact times_valid_plain. Qed.
+Print Assumptions C11_times_valid_plain.
+Example C11_ex_ancient_token_refused :
+  timing_ok 1700000000 3600 {| j_kid := JAbsent; j_exp := JAbsent; j_iat := JNum (- 2 ^ 63); j_sub := JAbsent; j_iss := JAbsent; j_scope := JAbsent |} = false.
+Proof. vm_compute. reflexivity. Qed.
+
 (* where the maximum age the time validation uses comes from: a positive
    TokenMaxAge wins; otherwise SEC_TOKEN_MAX_AGE, read as a number of seconds
    (ParseDuration of the value followed by "s"); otherwise the default *)
